@@ -13,8 +13,8 @@
      * C01_compose_free_resolves: the pointer resolution of mi_free finds exactly the block an address lies in
        (C16 round trips), and free removes exactly it;
      * C01_refines_map: every operation commutes with abs.
-     * C01_compose_malloc_progress: the dynamic checks of the model never fail for a request served from a
-       fresh segment.
+     * C01_compose_malloc_progress / _huge_progress: the dynamic checks of the model never fail for a request
+       served from a fresh segment (normal or huge).
    The layer theorems (Properties/C01.v, C01span.v, C16.v) are reused, not re-proved.  What is not shown is in
    Proofs/ComposeOpen.v.  This file contains only statements closed by `exact`, Print Assumptions, Examples. *)
 From Coq Require Import NArith List Bool.
@@ -83,6 +83,14 @@ Theorem C01_compose_malloc_progress : forall m size base, mem_inv m -> size <= M
   exists m' p, mmalloc m size (ChFreshSeg base) = Some (m', p).
 Proof. exact malloc_fresh_seg_progress. Qed.
 Print Assumptions C01_compose_malloc_progress.
+
+(* ... and a huge block (above MI_LARGE_OBJ_SIZE_MAX, below 2^47 bytes) in its own segment *)
+Theorem C01_compose_malloc_huge_progress : forall m size base, mem_inv m ->
+  MI_LARGE_OBJ_SIZE_MAX < size -> size < 2^47 ->
+  base_ok m base ((block_size_of size + 131071) / 65536) = true ->
+  exists m' p, mmalloc m size (ChHuge base 0) = Some (m', p).
+Proof. exact malloc_huge_progress. Qed.
+Print Assumptions C01_compose_malloc_huge_progress.
 
 (* ---- C01_compose_live_disjoint ---- *)
 Theorem C01_compose_live_disjoint : forall m q1 b1 q2 b2, reachable m ->
